@@ -405,10 +405,11 @@ theorem trunc8_toNat (z : BitVec 64) (h : 0 ≤ z.toInt ∧ z.toInt < 256) :
 theorem intToI32_spec (src : BitVec 64) :
     (∃ v, intToNarrow 32 true src = .fast v ∧ isShort src ∧ v.toInt = sval src ∧
         -2147483648 ≤ sval src ∧ sval src < 2147483648) ∨
-    (intToNarrow 32 true src = .raise "ValueError" 0#32 ∧
+    (intToNarrow 32 true src = .raise "ValueError" 4294967183#32 ∧
         ¬ (isShort src ∧ -2147483648 ≤ sval src ∧ sval src < 2147483648)) := by
   unfold intToNarrow
-  simp only [tagTest_eq, decide_eq_true_eq, if_true, BitVec.slt_eq_decide, BitVec.sle_eq_decide]
+  have e0 : errValue 32 true = 4294967183#32 := by decide
+  simp only [e0, tagTest_eq, decide_eq_true_eq, if_true, BitVec.slt_eq_decide, BitVec.sle_eq_decide]
   have e1 : (BitVec.ofInt 64 (2 * ((2 ^ (32 - 1) : Nat) : Int))).toInt = 4294967296 := by decide
   have e2 : (BitVec.ofInt 64 (2 * -((2 ^ (32 - 1) : Nat) : Int))).toInt = -4294967296 := by decide
   rw [e1, e2]
@@ -427,10 +428,11 @@ theorem intToI32_spec (src : BitVec 64) :
 theorem intToI16_spec (src : BitVec 64) :
     (∃ v, intToNarrow 16 true src = .fast v ∧ isShort src ∧ v.toInt = sval src ∧
         -32768 ≤ sval src ∧ sval src < 32768) ∨
-    (intToNarrow 16 true src = .raise "ValueError" 0#16 ∧
+    (intToNarrow 16 true src = .raise "ValueError" 65423#16 ∧
         ¬ (isShort src ∧ -32768 ≤ sval src ∧ sval src < 32768)) := by
   unfold intToNarrow
-  simp only [tagTest_eq, decide_eq_true_eq, if_true, BitVec.slt_eq_decide, BitVec.sle_eq_decide]
+  have e0 : errValue 16 true = 65423#16 := by decide
+  simp only [e0, tagTest_eq, decide_eq_true_eq, if_true, BitVec.slt_eq_decide, BitVec.sle_eq_decide]
   have e1 : (BitVec.ofInt 64 (2 * ((2 ^ (16 - 1) : Nat) : Int))).toInt = 65536 := by decide
   have e2 : (BitVec.ofInt 64 (2 * -((2 ^ (16 - 1) : Nat) : Int))).toInt = -65536 := by decide
   rw [e1, e2]
@@ -449,10 +451,11 @@ theorem intToI16_spec (src : BitVec 64) :
 theorem intToU8_spec (src : BitVec 64) :
     (∃ v, intToNarrow 8 false src = .fast v ∧ isShort src ∧ (v.toNat : Int) = sval src ∧
         0 ≤ sval src ∧ sval src < 256) ∨
-    (intToNarrow 8 false src = .raise "ValueError" 0#8 ∧
+    (intToNarrow 8 false src = .raise "ValueError" 239#8 ∧
         ¬ (isShort src ∧ 0 ≤ sval src ∧ sval src < 256)) := by
   unfold intToNarrow
-  simp only [tagTest_eq, decide_eq_true_eq, Bool.false_eq_true, if_false, BitVec.slt_eq_decide,
+  have e0 : errValue 8 false = 239#8 := by decide
+  simp only [e0, tagTest_eq, decide_eq_true_eq, Bool.false_eq_true, if_false, BitVec.slt_eq_decide,
     BitVec.sle_eq_decide]
   have e1 : (BitVec.ofInt 64 (2 * ((2 ^ 8 : Nat) : Int))).toInt = 512 := by decide
   have e2 : (BitVec.ofInt 64 (2 * 0)).toInt = 0 := by decide
